@@ -5,7 +5,7 @@
 From Coq Require Import ZArith NArith Reals List String Bool.
 From Flocq Require Import Core BinarySingleNaN.
 From SV Require Import Num.Mod360 Num.Mod360Proofs Num.AngleSites Num.AngleSitesProofs
-                       Num.Dec6 Num.Dec6Proofs Num.Dec6CarveProofs Num.VecText Num.VecTextProofs SM.FrozenOps SM.FrozenOpsProofs SM.FrozenCopy SM.FrozenCopyProofs.
+                       Num.Dec6 Num.Dec6Proofs Num.Dec6CarveProofs Num.VecText Num.VecTextProofs Num.Mod360Id Num.VecTextFloat SM.FrozenOps SM.FrozenOpsProofs SM.FrozenCopy SM.FrozenCopyProofs.
 Import ListNotations.
 
 (** ------------------------------------------------------------------ (a) range *)
@@ -186,8 +186,50 @@ Theorem c05_parse_str_vec : forall pc c x y z, pcfg_ok pc = true ->
     within_5e7 dx x /\ within_5e7 dy y /\ within_5e7 dz z.
 Proof. exact parse_str_vec. Qed.
 
+(** the documented forms "(x y z)", "{x y z}", "[x y z]", "<x y z>" (mixed pairs too) *)
+Theorem c05_parse_bracketed_vec : forall pc c x y z o cl, pcfg_ok pc = true -> accepts_documented_brackets pc = true ->
+  In o [40; 123; 91; 60]%N -> In cl [41; 125; 93; 62]%N ->
+  exists dx dy dz, parse_vec pc ([o] ++ vec_text c x y z ++ [cl]) = PFields (Some dx) (Some dy) (Some dz) /\
+    within_5e7 dx x /\ within_5e7 dy y /\ within_5e7 dz z.
+Proof. exact parse_bracketed_vec. Qed.
+
 (** without strip() the bracket after a leading space is not removed and the first field is lost *)
 Theorem c05_parse_nostrip_refuted :
   parse_vec {| strips_ws := false; opens := [40]%N; closes := [41]%N; splits_ws := true; uses_float := true |} [32; 40; 49; 32; 50; 32; 51; 41]%N
   = PFields None (Some (false, 2%N, O)) (Some (false, 3%N, O)).
 Proof. exact parse_nostrip_refuted. Qed.
+
+(** ------------------------------------------------------------------ (a)+(c) normalisation of a value already in range *)
+
+(** Python's [x % 360.0 % 360.0] leaves every finite x with 0 <= x < 360 unchanged (as a real number): the
+    constructor normalisation in Angle.from_str / Angle(...) / FrozenAngle(...) does not move a component that was
+    read back from text, and storing twice equals storing once. *)
+Theorem c05_double360_id : forall x : b64, is_finite x = true -> (0 <= B2R x < 360)%R ->
+  B2R (double360 x) = B2R x /\ is_finite (double360 x) = true.
+Proof. exact double360_id. Qed.
+
+Theorem c05_double360_idempotent : forall x : b64, is_finite x = true ->
+  B2R (double360 (double360 x)) = B2R (double360 x).
+Proof. exact double360_idempotent. Qed.
+
+(** exactly 360.0 — what a component such as 359.9999997 prints as ("360") and re-reads to — is stored as 0.0:
+    the 5e-7 of the property is measured on the circle for angles *)
+Theorem c05_double360_of_360 : show (double360 f360) = (0, 0, 0)%Z.
+Proof. exact double360_of_360. Qed.
+
+(** ------------------------------------------------------------------ (c) float(): the binary rounding of the field *)
+
+(** [within_5e7] is the statement |decimal − x| <= 5e-7 over the reals *)
+Theorem c05_within_5e7_R : forall d x, within_5e7 d x -> (Rabs (dec_R d - dy_R x) <= 5 / 10000000)%R.
+Proof. exact within_5e7_R. Qed.
+
+(** float() modelled as correctly rounded ([py_float] = round-to-nearest-even to binary64 of the exact decimal):
+    the double read back is within 5e-7 + half an ulp of x *)
+Theorem c05_float_parse_error : forall d x, within_5e7 d x ->
+  (Rabs (py_float d - dy_R x) <= 5 / 10000000 + / 2 * ulp radix2 (FLT_exp (-1074) 53) (dec_R d))%R.
+Proof. exact float_parse_error. Qed.
+
+(** and exact when the text denotes x itself *)
+Theorem c05_float_parse_exact : forall d x, dec_R d = dy_R x ->
+  generic_format radix2 (FLT_exp (-1074) 53) (dy_R x) -> py_float d = dy_R x.
+Proof. exact float_parse_exact. Qed.
